@@ -372,7 +372,8 @@ def random_spec(seed: int, profile: Optional[Dict[str, Any]] = None) -> Dict[str
     n_st = _pick(rnd, P["n_stations"])
     stations = []
     for i in range(n_st):
-        p = geo.anchor(geo.fresh())
+        # now and then two stations share one location
+        p = rnd.choice(geo.anchors) if geo.anchors and rnd.random() < 0.12 else geo.anchor(geo.fresh())
         plugs = []
         kinds = rnd.sample(elec, k=min(len(elec), rnd.choice([1, 1, 2, 2, 3])))
         if rnd.random() < 0.6:
